@@ -174,6 +174,22 @@ func runC01(tier string, seed uint64) {
 					round("big/object", rng.Bytes(sz), metas[1], 0)
 				}
 			}
+			// keys that would collide under a careless normalisation stay distinct objects
+			for gi, grp := range [][]string{{"tw/in", "tw_in", "tw\\in"}, {"Case", "case", "CASE"}, {"s p", "s+p", "s%20p"}, {"dot.", "dot", "dot.."}} {
+				for ti, k := range grp {
+					s.Put(b, k, []byte(fmt.Sprintf("twin-%d-%d-%s", gi, ti, k)), []KV{{"X-Amz-Meta-Twin", fmt.Sprintf("%d-%d", gi, ti)}, {"Content-Type", fmt.Sprintf("text/x-twin%d", ti)}})
+				}
+				for _, k := range grp {
+					s.Get(b, k, "")
+					s.Head(b, k, "")
+				}
+				s.Put(b, grp[0], []byte("rewritten"), []KV{{"X-Amz-Meta-Twin", "rewritten"}})
+				s.Delete(b, grp[1])
+				for _, k := range grp {
+					s.Get(b, k, "")
+				}
+				nontrivial(fmt.Sprint(kind, noInt, "twins", gi))
+			}
 			// later operations on other keys leave the answer unchanged
 			s.Put(b, "other", []byte("x"), nil)
 			s.Delete(b, "other")
@@ -182,5 +198,5 @@ func runC01(tier string, seed uint64) {
 			s.end()
 		}
 	}
-	sample("per backend x integrity on/off: bodies of 0,1,2,63..65,4095..4097,32767..32769 random bytes (and 1 MiB+1; 5 MiB+3 thorough) x 8 keys (spaces, '+', UTF-8, '?', '&', '%41%2F', ';', ',', 401 bytes nested) x 3 metadata sets (none; type + x-amz-meta; type+encoding+disposition+900-byte value), uploaded by PUT (with/without Content-MD5), browser-form POST, copy, and Backend.PutObject; each followed by GET and HEAD (HTTP and Backend API) and a listing of the key")
+	sample("per backend x integrity on/off: bodies of 0,1,2,63..65,4095..4097,32767..32769 random bytes (and 1 MiB+1; 5 MiB+3 thorough) x 8 keys (spaces, '+', UTF-8, '?', '&', '%41%2F', ';', ',', 401 bytes nested) x 3 metadata sets (none; type + x-amz-meta; type+encoding+disposition+900-byte value), uploaded by PUT (with/without Content-MD5), browser-form POST, copy, and Backend.PutObject; each followed by GET and HEAD (HTTP and Backend API) and a listing of the key; groups of keys that differ only by '/', '_', '\\', case, ' ', '+', '%20', trailing '.' each get their own body and metadata, are read back, one is rewritten, one deleted, all read again")
 }
